@@ -6,7 +6,11 @@ use crate::h_util::*;
 
 pub fn run(toks: &[&str]) -> String {
     let file = parse_b(toks[0]);
-    match mila::arc::from_bytes(&file) {
+    show(mila::arc::from_bytes(&file))
+}
+
+pub fn show(r: Result<std::collections::HashMap<String, Vec<u8>>, mila::ArcError>) -> String {
+    match r {
         Err(e) => arcerr(&e).to_string(),
         Ok(files) => {
             let mut v: Vec<(Vec<u64>, String)> = files
